@@ -303,7 +303,12 @@ func (w *W) opMint(op string, qi int, variant string) error {
 			outs = q.LastOuts
 		}
 	case "wrap":
-		outs = w.U.Outputs(act.Id, 1<<63, 1<<63, amt)
+		// 32 outputs of 2^59 (each a valid denomination) sum to 2^64 = 0 mod 2^64, plus the honest split of the amount
+		big32 := make([]uint64, 32)
+		for i := range big32 {
+			big32[i] = 1 << 59
+		}
+		outs = w.U.Outputs(act.Id, append(big32, world.Split(amt)...)...)
 		over = true
 	case "bad3":
 		outs = w.U.Outputs(act.Id, 3)
@@ -436,7 +441,11 @@ func (w *W) opSwap(op, ins, variant string) error {
 	case "nofee":
 		outs = mk(act.Id, inSum)
 	case "wrap":
-		outs = w.U.Outputs(act.Id, 1<<63, 1<<63)
+		big32 := make([]uint64, 32)
+		for i := range big32 {
+			big32[i] = 1 << 59
+		}
+		outs = w.U.Outputs(act.Id, big32...)
 		if net.Sign() > 0 && net.IsUint64() {
 			outs = append(outs, w.U.Outputs(act.Id, world.Split(net.Uint64())...)...)
 		}
@@ -501,7 +510,7 @@ func (w *W) opSwap(op, ins, variant string) error {
 			w.viol("C04", "amount-field-mutation-accepted", "Swap(%s) accepted a proof with a changed amount field", ins)
 		}
 		if outSum.Cmp(net) > 0 {
-			w.viol("C02", "swap-outputs-exceed-inputs-minus-fees", "Swap(%s,%s): outputs %s > inputs %s - fee %s", ins, variant, outSum, inSum, fee)
+			w.viol("C02,C09", "swap-outputs-exceed-inputs-minus-fees", "Swap(%s,%s): outputs %s > inputs %s - fee %s", ins, variant, outSum, inSum, fee)
 		}
 		if outKS != "active" {
 			w.viol("C09", "signed-on-"+outKS+"-keyset", "Swap(%s,%s) accepted", ins, variant)
@@ -706,7 +715,7 @@ func (w *W) opMelt(op string, mi int, ins, pay, status string) error {
 			w.viol("C01", "melt-duplicate-secret-in-request-accepted", "MeltTokens(mq%d,%s) with the same secret twice attempted payment", mi, ins)
 		}
 		if !enough {
-			w.viol("C02", "melt-with-insufficient-inputs", "MeltTokens(mq%d,%s): inputs %s < amount %d + reserve %d + fee %s, payment attempted", mi, ins, bigSumProofs(proofs), m.Q.Amount, m.Q.FeeReserve, fee)
+			w.viol("C02,C09", "melt-with-insufficient-inputs", "MeltTokens(mq%d,%s): inputs %s < amount %d + reserve %d + fee %s, payment attempted", mi, ins, bigSumProofs(proofs), m.Q.Amount, m.Q.FeeReserve, fee)
 		}
 		if quoteBusy {
 			w.viol("C05", "melt-on-"+prevKnown+"-quote-paid-again", "MeltTokens(mq%d) attempted a payment although the quote was %s", mi, prevKnown)
